@@ -5,6 +5,8 @@ package main
 import (
 	"fmt"
 	"go/types"
+	"os"
+	"regexp"
 	"sort"
 	"strings"
 
@@ -55,8 +57,8 @@ func (e *Engine) VerifyFunc(key string, small bool) *FnCtx {
 	envPre.old = nil
 	envPre.lookup = func(name string, s *State) (TV, bool) { return fr.paramLookup(name, s) }
 	for _, c := range ctr.Requires {
-		g := envPre.tr(c.E)
-		fc.facts = append(fc.facts, Fact{Text: "(assert " + g.T + ")", Tag: "pre:" + c.Label})
+		g := envPre.trAssume(c.E)
+		fc.facts = append(fc.facts, Fact{Text: "(assert " + g + ")", Tag: "pre:" + c.Label})
 	}
 	fc.nPreFacts = len(fc.facts)
 	fr.run(entry, "true")
@@ -99,10 +101,34 @@ func (e *Engine) VerifyFunc(key string, small bool) *FnCtx {
 					}
 					goalE = imp.Y
 				}
+				// `!defined(x) ==> P`: only at return sites where local x is not defined yet
+				if neg, ok := imp.X.(*EUnary); ok && neg.Op == "!" {
+					if call, ok := neg.X.(*ECall); ok && call.Fun == "defined" && len(call.Args) == 1 {
+						id, _ := call.Args[0].(*EIdent)
+						fr.noUndef = true
+						_, okDef := fr.resolveName(id.Name, r.blk, true, r.state, nil)
+						fr.noUndef = false
+						if okDef {
+							continue
+						}
+						goalE = imp.Y
+					}
+				}
+				// `defined(x) ==> P`: only at return sites reached after local x was defined
+				if call, ok := imp.X.(*ECall); ok && call.Fun == "defined" && len(call.Args) == 1 {
+					id, _ := call.Args[0].(*EIdent)
+					fr.noUndef = true
+					_, okDef := fr.resolveName(id.Name, r.blk, true, r.state, nil)
+					fr.noUndef = false
+					if !okDef {
+						continue
+					}
+					goalE = imp.Y
+				}
 			}
 			for k, part := range splitConj(goalE) {
 				g := env.tr(part)
-				fc.obls = append(fc.obls, &Obl{Func: key, Kind: "ensures", Label: c.Label, Site: fmt.Sprintf("%s.%d", site, k), NFacts: len(fc.facts), Path: r.reach, Goal: g.T, Using: c.Using, Text: c.Text})
+				fc.obls = append(fc.obls, &Obl{Func: key, Kind: "ensures", Label: c.Label, Site: fmt.Sprintf("%s.%d", site, k), NFacts: len(fc.facts), Path: r.reach, Goal: g.T, Using: c.Using, Text: c.Text, Window: c.Window, Since: c.Since, blk: r.blk, fr: fr})
 			}
 		}
 		for _, c := range ctr.AsIs {
@@ -353,8 +379,159 @@ func (fc *FnCtx) axiomFacts(using []string) []string {
 	return out
 }
 
+var symRe = regexp.MustCompile(`[A-Za-z_][A-Za-z0-9_.$@#]*`)
+
+// sliceFacts: cone-of-influence slicing. Dropping hypotheses is always sound; it keeps queries of large functions small.
+// A definitional fact (= sym term) is kept iff sym is relevant; any other fact is kept iff it mentions a relevant
+// non-control symbol. Kept facts make their symbols relevant (fixpoint).
+func (fc *FnCtx) sliceFacts(o *Obl, idxs []int) map[int]bool {
+	relevant := map[string]bool{}
+	addSyms := func(t string) bool {
+		changed := false
+		for _, m := range symRe.FindAllString(t, -1) {
+			if fc.declared[m] && !relevant[m] {
+				relevant[m] = true
+				changed = true
+			}
+		}
+		return changed
+	}
+	addSyms(o.Goal)
+	addSyms(o.Path)
+	type finfo struct {
+		def  string
+		syms []string
+	}
+	isControl := func(s string) bool {
+		return strings.Contains(s, "R_") && (strings.HasPrefix(s, "R_") || strings.Contains(s, "_R_")) || strings.HasPrefix(s, "E_") || strings.Contains(s, "_E_")
+	}
+	infos := map[int]*finfo{}
+	for _, i := range idxs {
+		if fc.facts[i].Tag == "pf" {
+			continue // "result == pf(args)" links are only needed for lemma-style reasoning; never in sliced queries
+		}
+		t := fc.facts[i].Text
+		fi := &finfo{def: fc.facts[i].Def}
+		seen := map[string]bool{}
+		for _, m := range symRe.FindAllString(t, -1) {
+			if fc.declared[m] && !seen[m] {
+				seen[m] = true
+				fi.syms = append(fi.syms, m)
+			}
+		}
+		if fi.def == "" {
+			if strings.HasPrefix(t, "(assert (= ") {
+				rest := t[len("(assert (= "):]
+				if k := strings.IndexAny(rest, " )"); k > 0 && fc.declared[rest[:k]] {
+					fi.def = rest[:k]
+				}
+			}
+		}
+		if fi.def == "" {
+			// a fact "about" its first data symbol
+			for _, m := range fi.syms {
+				if !isControl(m) {
+					fi.def = m
+					break
+				}
+			}
+		}
+		infos[i] = fi
+	}
+	// control window: reach/edge symbols of blocks within o.Window CFG levels before the site keep their definitions;
+	// farther control symbols are left unconstrained
+	inWindow := map[string]bool{}
+	if o.Window > 0 && o.Since == "" && o.blk != nil && o.fr != nil {
+		level := map[*ssa.BasicBlock]int{o.blk: 0}
+		queue := []*ssa.BasicBlock{o.blk}
+		for len(queue) > 0 {
+			b := queue[0]
+			queue = queue[1:]
+			inWindow[o.fr.reach[b]] = true
+			for _, p := range b.Preds {
+				if e, ok := o.fr.edge[[2]int{p.Index, b.Index}]; ok {
+					inWindow[e] = true
+				}
+				if _, seen := level[p]; !seen && level[b] < o.Window {
+					level[p] = level[b] + 1
+					queue = append(queue, p)
+				}
+			}
+		}
+	}
+	if o.Since != "" && o.fr != nil {
+		o.Window = 1
+		line := o.fr.anchorLine(o.Since)
+		if line < 0 {
+			fc.errf("since %q: text not found in %s", o.Since, o.fr.fn.Name())
+		}
+		for _, b := range o.fr.fn.Blocks {
+			in := false
+			for _, ins := range b.Instrs {
+				if ins.Pos().IsValid() && o.fr.fn.Prog.Fset.Position(ins.Pos()).Line >= line {
+					in = true
+					break
+				}
+			}
+			if in && line >= 0 {
+				inWindow[o.fr.reach[b]] = true
+			}
+		}
+		// an edge keeps its definition only if its source block is in the window too
+		for _, b := range o.fr.fn.Blocks {
+			if !inWindow[o.fr.reach[b]] {
+				continue
+			}
+			for _, p := range b.Preds {
+				if e, ok := o.fr.edge[[2]int{p.Index, b.Index}]; ok && inWindow[o.fr.reach[p]] {
+					inWindow[e] = true
+				}
+			}
+		}
+	}
+	if os.Getenv("GOVC_DEBUG") != "" {
+		fmt.Fprintf(os.Stderr, "slice %s@%s since=%q window=%d inWindow=%d\n", o.Label, o.Site, o.Since, o.Window, len(inWindow))
+	}
+	keep := map[int]bool{}
+	for changed := true; changed; {
+		changed = false
+		for _, i := range idxs {
+			if keep[i] || infos[i] == nil {
+				continue
+			}
+			fi := infos[i]
+			take := false
+			if fi.def != "" {
+				take = relevant[fi.def]
+				if take && o.Window > 0 && (strings.HasPrefix(fi.def, "R_") || strings.HasPrefix(fi.def, "E_")) && !inWindow[fi.def] {
+					take = false
+				}
+			} else {
+				take = true // no data symbol at all (e.g. constraints on control symbols only)
+				for _, s := range fi.syms {
+					if !relevant[s] {
+						take = false
+					}
+				}
+			}
+			if take {
+				keep[i] = true
+				changed = true
+				for _, s := range fi.syms {
+					relevant[s] = true
+				}
+			}
+		}
+	}
+	return keep
+}
+
 // Query builds the SMT-LIB script of one obligation.
 func (fc *FnCtx) Query(o *Obl, negate bool) string {
+	return fc.QueryOpt(o, negate, false)
+}
+
+func (fc *FnCtx) QueryOpt(o *Obl, negate bool, slice bool) string {
 	var b strings.Builder
 	axioms := fc.axiomFacts(o.Using) // may extend the prelude: do it first
 	b.WriteString("(set-option :produce-models true)\n(set-logic ALL)\n")
@@ -365,6 +542,7 @@ func (fc *FnCtx) Query(o *Obl, negate bool) string {
 	for _, a := range axioms {
 		b.WriteString(a + "\n")
 	}
+	var idxs []int
 	for i, f := range fc.facts {
 		if i >= o.NFacts {
 			break
@@ -372,7 +550,17 @@ func (fc *FnCtx) Query(o *Obl, negate bool) string {
 		if !factAllowed(f, o) {
 			continue
 		}
-		b.WriteString(f.Text + "\n")
+		idxs = append(idxs, i)
+	}
+	var keep map[int]bool
+	if slice {
+		keep = fc.sliceFacts(o, idxs)
+	}
+	for _, i := range idxs {
+		if keep != nil && !keep[i] {
+			continue
+		}
+		b.WriteString(fc.facts[i].Text + "\n")
 	}
 	b.WriteString("(assert " + o.Path + ")\n")
 	if negate {
@@ -424,4 +612,28 @@ func factAllowed(f Fact, o *Obl) bool {
 		return true
 	}
 	return true
+}
+
+// anchorLine: the first source line of the function that contains the given text (-1 if absent).
+func (fr *frame) anchorLine(text string) int {
+	fn := fr.fn
+	if fn.Syntax() == nil {
+		return -1
+	}
+	fset := fn.Prog.Fset
+	start, end := fset.Position(fn.Syntax().Pos()), fset.Position(fn.Syntax().End())
+	data, err := os.ReadFile(start.Filename)
+	if ov, ok := fr.fc.eng.Overlay[start.Filename]; ok {
+		data, err = ov, nil
+	}
+	if err != nil {
+		return -1
+	}
+	lines := strings.Split(string(data), "\n")
+	for i := start.Line; i <= end.Line && i <= len(lines); i++ {
+		if strings.Contains(lines[i-1], text) {
+			return i
+		}
+	}
+	return -1
 }
